@@ -220,12 +220,17 @@ def folded(src, ctext):
     return ctext
 
 
+DEFAULTS = ("0", "0.0", "false", '""', "0.0f")
+
+
 def canon_promoted(nodes):
-    """runs of consecutive default-initialised local declarations (hoisted names) are compared as
-    sorted runs: their relative order is set-iteration order in the real parser (property C10)"""
+    """runs of consecutive default-initialised local declarations (hoisted names), or of assignments of a
+    default literal (hoisted declarations rewritten by an outer hoisting), are compared as sorted runs: their
+    relative order is set-iteration order in the real parser (property C10) and they commute"""
     out, run = [], []
     for n in nodes:
-        if n[0] == "decl" and n[4] is False and n[3] in ("0", "0.0", "false", '""', "0.0f"):
+        if (n[0] == "decl" and n[4] is False and n[3] in DEFAULTS) or (n[0] == "assign" and n[2] in DEFAULTS):
+            # hoisted declarations, and hoisted declarations that an outer hoisting rewrote to `x = <default>;`
             run.append(n)
             continue
         if run:
